@@ -393,7 +393,7 @@ def check_liveness(idx: Index, rep: Report) -> None:
         h = f.cls.method(m_.group(1))
         if h is None:
             return False
-        hn = h.raw_node
+        hn = h.as_raw().node
         hop = hn.args.args[1].arg
         rets = [x for x in walk_local(hn) if isinstance(x, ast.Return)]
         trues = [x for x in rets if isinstance(x.value, ast.Constant) and x.value.value is True]
